@@ -147,6 +147,11 @@ impl LimitSpec {
         secs: 1 << 40,
         nanos: 0,
     };
+    /// `Duration::MAX`.
+    pub const MAX: LimitSpec = LimitSpec::Dur {
+        secs: u64::MAX,
+        nanos: 999_999_999,
+    };
     pub fn to_option(&self) -> Option<Duration> {
         match self {
             LimitSpec::Unset => None,
